@@ -7,6 +7,30 @@ BUILD = os.path.join(ROOT, ".build")
 VERUS_TIMEOUT = int(os.environ.get("VERIF_VERUS_TIMEOUT", "900"))
 
 
+# process groups of running verifier processes: killed when this process is told to terminate (e.g. by `timeout`),
+# otherwise z3 children survive as orphans and keep a core busy
+_LIVE_PGIDS = set()
+
+
+def _kill_live(signum=None, frame=None):
+    for pg in list(_LIVE_PGIDS):
+        try:
+            os.killpg(pg, 9)
+        except Exception:
+            pass
+    if signum is not None:
+        os._exit(143)
+
+
+try:
+    import signal, atexit
+    signal.signal(signal.SIGTERM, _kill_live)
+    signal.signal(signal.SIGINT, _kill_live)
+    atexit.register(_kill_live)
+except Exception:
+    pass
+
+
 class VerusResult:
     def __init__(self):
         self.unit = None
@@ -94,8 +118,9 @@ def run_unit(name, rlimit=None, extra_args=(), expanded_src=None, use_cache=True
             # output goes to files: a pipe that nobody drains while polling blocks verus once it is full
             base = os.path.join(tmpd, "%s.%s.%d" % (name, sd, os.getpid()))
             fo, fe = open(base + ".out", "w+"), open(base + ".err", "w+")
-            procs.append((sd, subprocess.Popen(a2, stdout=fo, stderr=fe, text=True, start_new_session=True,
-                                               cwd=os.path.join(BUILD, "units")), fo, fe, base))
+            pr0 = subprocess.Popen(a2, stdout=fo, stderr=fe, text=True, start_new_session=True, cwd=os.path.join(BUILD, "units"))
+            _LIVE_PGIDS.add(pr0.pid)
+            procs.append((sd, pr0, fo, fe, base))
         deadline = t0 + (timeout or VERUS_TIMEOUT)
         finished = {}
         winner = None
@@ -136,6 +161,7 @@ def run_unit(name, rlimit=None, extra_args=(), expanded_src=None, use_cache=True
                     pr.wait(timeout=5)
                 except Exception:
                     pass
+            _LIVE_PGIDS.discard(pr.pid)
             fo.close(); fe.close()
             for ext in (".out", ".err"):
                 try:
